@@ -44,6 +44,8 @@ inductive Base where
       the last list repeats; no list = no signers -/
   | publickeyCb (lists : List (List Signer))
   | kbd (p : KbdPolicy)
+  /-- PasswordCallback / PublicKeysCallback whose function returns an error: `auth` fails without I/O -/
+  | failing (name : String)
 deriving DecidableEq, Repr, Inhabited
 
 def Base.name : Base → String
@@ -51,6 +53,7 @@ def Base.name : Base → String
   | .publickey _ => "publickey"
   | .publickeyCb _ => "publickey"
   | .kbd _ => "keyboard-interactive"
+  | .failing n => n
 
 /-- an AuthMethod: a base method, optionally wrapped in RetryableAuthMethod(base, maxTries) -/
 structure Method where
@@ -304,6 +307,7 @@ def runBase (cfg : Cfg) (sigAlgs : Option String) (b : Base) (script : List Srv)
   | .publickey signers => (pkAuth cfg.user sigAlgs signers script, pk)
   | .publickeyCb lists => (pkAuth cfg.user sigAlgs (nthOrLast lists pk) script, pk + 1)
   | .kbd p => (kbdLoop p script false false [Ev.wKbd cfg.user], pk)
+  | .failing _ => (⟨.failure, none, some .other, [], script⟩, pk)
 
 /-- `retryableAuthMethod.auth`: call the base method until it does not plainly fail, `fuel` times at
     most; returns the last result with the concatenated trace, the callback counter and the number
@@ -459,9 +463,11 @@ inductive Cred where
   | kbd (answer : String)
   | publickey (signers : List Signer)
   | publickeyCb (lists : List (List Signer))
+  | gss (cred : String)
 deriving Repr, Inhabited
 
 def Cred.name : Cred → String
+  | .gss _ => "gssapi-with-mic"
   | .password _ => "password"
   | .kbd _ => "keyboard-interactive"
   | .publickey _ => "publickey"
@@ -479,6 +485,7 @@ def stageOk (serverAlgs : List String) (authKey : Nat) (cli : List Cred) (m : St
   match cli.find? (fun c => c.name == m) with
   | some (.password pw) => pw == "good"
   | some (.kbd a) => a == "good"
+  | some (.gss a) => a == "good"
   | some (.publickey signers) => signers.any (signerWorks serverAlgs authKey)
   | some (.publickeyCb lists) => (nthOrLast lists pk).any (signerWorks serverAlgs authKey)
   | none => false
